@@ -831,8 +831,8 @@ class SGen:
             self.frozen.add(loop_var)
         try:
             sliced = None
-            if self.chance(4):
-                arrs = [n for n, v in benv.items() if isinstance(v, np.ndarray) and v.dtype in (np.float32, np.int64) and n != loop_var and self.subscript_ok(v)]
+            if self.chance(7):
+                arrs = [n for n, v in benv.items() if isinstance(v, np.ndarray) and v.dtype in (np.float32, np.float64, np.int64) and n != loop_var and self.subscript_ok(v)]
                 if arrs:
                     src = self.pick(arrs)
                     tmp = "tmp" + str(len(body)) + "s"
